@@ -32,7 +32,8 @@ P = {
        "derive from the same parsed item on every caller; a raise-guard ties "
        "the single Reference URI to item.id on every path to the verifier; a "
        "present signature is checked on every accepting path with no "
-       "requirement flag in its guard; bypass flags are closed; normal return "
+       "requirement flag in its guard; bypass flags are closed and never "
+       "rebound by the function they gate; normal return "
        "of _check_signature is unreachable unless verified was set under a "
        "truthy verdict; no handler on the cone swallows a signature error "
        "outside three enumerated retry idioms; every assertion that is adopted, plain or decrypted, passed the signature gate (R10). Does not decide what xmlsec1 "
@@ -51,7 +52,8 @@ P = {
        "blocks the accepting return. The 8x4x2 run-time table itself is not "
        "executed. R7: a signature counts as verified only on the true branch "
        "of the verifier call (C01.R7 re-evaluated under 'every signature that "
-       "is present verifies').",
+       "is present verifies'). R8: the flags that switch verification off stay "
+       "closed (C01.R6).",
   ref="Part 3 C02"),
 }
 
@@ -135,8 +137,8 @@ def main():
                  "Exit 0 holds / 1 VIOLATION / 2 ANALYSIS-ERROR (fail closed). "
                  "Known findings: /verif/known_findings.json. Self-test "
                  "variants: selftest/run.py (312); seeded breaking changes: "
-                 "seeded/ (114, all reported); behaviour-preserving refactoring "
-                 "patches: benign/ (50, all silent); tools/corpus.py re-checks "
+                 "seeded/ (133, all reported); behaviour-preserving refactoring "
+                 "patches: benign/ (60, all silent); tools/corpus.py re-checks "
                  "both; tools/metamorph.py applies 24 mechanical behaviour-"
                  "preserving transformations to every hand-written function "
                  "(all silent, also on top of every corpus patch and every "
